@@ -63,9 +63,11 @@ PROP = Prop(
                 clause='detect_keyboard_walk: tiling; every K segment has >= 4 keys, every consecutive pair adjacent on one common layout '
                        '(independent copy of the qwerty/jcuken layouts), >= 2 character classes'),
         Bounded('C05.bounded.multiword', 'replay/trainer.py', args=['--fn', 'MULTIWORD'],
-                bound='all strings over {a,b,w} up to length 8 on a detector trained on 16 words (threshold 2)',
+                bound='all strings over {a,b,w} up to length 8 on a detector trained on 16 words (threshold 2); two training histories (min_len 4 and 2, threshold 5) with '
+                      'digit- / symbol-separated short letter runs, non-ASCII letters and passwords outside the length window',
                 clause='MultiWordDetector.parse/_identify_multi/_get_count: parts concatenate to the input; split only if the whole is below the '
-                       'threshold and every part at or above it'),
+                       'threshold and every part at or above it; train(): the count of a word == the number of training passwords (inside the length window) '
+                       'in which it is a maximal letter run of at least min_len letters (independent tally)'),
         Bounded('C05.bounded.lower', 'replay/trainer.py', args=['--fn', 'LOWER'],
                 bound='all 1 112 064 code points (exhaustive)',
                 clause='lower_keep_length keeps the length and lower-cases character by character (character-table lemma)'),
